@@ -57,7 +57,7 @@ def run(R):
             integral_exact = k in B.INTK and on in ("mul", "div")
             for side in ("r", "l"):
                 if integral_exact and not (on == "div" and side == "l"):
-                    continue   # fixed*integer, integer*fixed, fixed/integer: exact integer semantics, decided by C02 / C03
+                    continue   # fixed*integer, integer*fixed, fixed/integer: exact integer semantics (below)
                 def mk(o, k=k, on=on, side=side, t=t):
                     c1 = R.call(h, "%s_%s_%s" % (side, on, k), [a, t], opts=o)
                     c2 = R.call(h, "ref%s_%s_%s" % (side, on, k), [a, t], opts=o)
@@ -77,6 +77,68 @@ def run(R):
                 c2 = R.call(h, "l_mul_%s" % k, [a, t], opts=o)
                 return [c1, c2], F, c1.out == c2.out
             rel("mul_%s/operand-order" % k, [a, t], mk, "n * a == a * n")
+    # "fixed*integer and fixed/integer use the integer exactly": the mixed forms against the exact integer result, decided in
+    # the INT encoding of the same IR (real integer arithmetic), precise bit-vector query as the fallback
+    ai = z3.Int("a")
+    fin_i = lambda v: z3.And(v >= -M, v <= M)
+    nan_i = lambda v: z3.Or(v == NAN, v == -NAN)
+    R.assume_note("integral operands of * and /: the result is compared with the exact integer product / truncated quotient of "
+                  "raw(a) and the mathematical value of t (INT encoding: unbounded integers, every wrap-around of the IR an "
+                  "explicit mod 2^w); NaN exactly when the product leaves [lowest, max] or t == 0")
+
+    from . import C02 as P2
+    W2 = P2.W
+
+    def exact_mul(name, k, unit, note):
+        """same three layers as C02's scalar obligations: MULW + sign lemma -> INT -> precise"""
+        w = B.WIDTH[k]
+        tb = BV("t", w)
+
+        def build(ab):
+            o = E.Opts(mul_uf=True) if ab else E.Opts(wide_mul=True)
+            c = R.call(h, unit, [a, tb], opts=o)
+            N = z3.simplify(P2.ext(tb, k, W2))
+            P = P2.product(sx(a, W2), N, ab)
+            inr = z3.And(P <= val(M, W2), P >= val(-M, W2))
+            return Ob(name, "verify", [a, tb], [c], F, z3.If(inr, sx(c.out, W2) == P, isnan_raw(c.out)), note=note,
+                      portfolio=P2.PF, extra_asserts=[P2.sign_lemma(a, N)] if ab else [], abstract=ab)
+
+        def build_int():
+            ti = z3.Int("t")
+            c = R.call(h, unit, [ai, ti], opts=E.Opts(int_mode=True))
+            tm = ti if k in B.SIGNED else ti % (1 << w)
+            dom = z3.And(fin_i(ai), ti >= -(1 << (w - 1)), ti < (1 << (w - 1)))
+            P = ai * tm
+            ob = Ob(name, "verify", [ai, ti], [c], dom, z3.If(z3.And(P <= M, P >= -M), c.out == P, nan_i(c.out)),
+                    note=note + " [INT encoding]", portfolio=("z3", "cvc5"), timeout=60)
+            ob.tag = "int"
+            ob.fallback = lambda: build(False)
+            return ob
+        ob = build(True)
+        ob.fallback = build_int
+        R._add(ob)
+
+    Wd = 66
+    for k in B.INTK:
+        for unit in ("r_mul_%s", "l_mul_%s", "eq_mul_%s"):
+            exact_mul((unit % k) + "/integer-used-exactly", k, unit % k, "exact product in range and NaN otherwise")
+        tb = BV("t", B.WIDTH[k])
+        N = sx(tb, Wd) if k in B.SIGNED else zx(tb, Wd)
+        fits = z3.And(N <= val((1 << 63) - 1, Wd), N >= val(-(1 << 63), Wd))
+        for unit in ("r_div_%s" % k, "eq_div_%s" % k):
+            c = R.call(h, unit, [a, tb], opts=E.Opts(div_uf=(SDIV, SREM)))
+
+            def exact(ins, outs, k=k):
+                av, nv = ins["a"], ins["t"]
+                if k not in B.SIGNED and nv < 0:
+                    nv += 1 << B.WIDTH[k]
+                q = abs(av) // abs(nv)
+                return outs[0] == (q if (av < 0) == (nv < 0) else -q)
+            R.verify(unit + "/integer-used-exactly", [a, tb], [c], z3.And(F, tb != 0),
+                     z3.If(fits, c.out == SDIV(a, z3.Extract(63, 0, N)), c.out == val(0)), exact=exact,
+                     note="fixed/integer == trunc(a/t) for every non-zero t (mathematical value; the IR's sdiv named SDIV)",
+                     portfolio=P2.PF)
+            R.verify(unit + "/zero-divisor-nan", [a, tb], [c], z3.And(F, tb == 0), isnan_raw(c.out), portfolio=P2.PF)
     for on in OPS:
         def mk(o, on=on):
             c1 = R.call(h, "eqfx_%s" % on, [a, b], opts=o)
